@@ -35,6 +35,6 @@ func TestGovcReplay(t *testing.T) {
 		t.Fatalf("REPRODUCED: the linter panics instead of rejecting the edit: %v", panicked)
 	}
 	if verdict == nil {
-		t.Fatalf("the linter accepts the removal of a template argument")
+		t.Fatalf("REPRODUCED: the linter accepts the removal of a template argument")
 	}
 }
